@@ -10,33 +10,33 @@ from drivers import realproc as rp
 
 HOOKTEXT = '''
 _LF = %(path)r
-def _ev(name, *a):
+def _ev(name, master, *a):
     fd = _os.open(_LF, _os.O_WRONLY | _os.O_APPEND | _os.O_CREAT, 0o644)
     try:
-        _os.write(fd, (" ".join([name, str(_os.getpid())] + [str(x) for x in a]) + "\\n").encode())
+        _os.write(fd, (" ".join([name, str(_os.getpid()), str(master)] + [str(x) for x in a]) + "\\n").encode())
     finally:
         _os.close(fd)
 _pwi = post_worker_init
 _wex = worker_exit
-def on_starting(server): _ev("on_starting")
-def when_ready(server): _ev("when_ready")
-def pre_fork(server, worker): _ev("pre_fork", worker.age)
-def post_fork(server, worker): _ev("post_fork", worker.age)
+def on_starting(server): _ev("on_starting", server.pid)
+def when_ready(server): _ev("when_ready", server.pid)
+def pre_fork(server, worker): _ev("pre_fork", server.pid, worker.age)
+def post_fork(server, worker): _ev("post_fork", worker.ppid, worker.age)
 def post_worker_init(worker):
-    _ev("post_worker_init", worker.age)
+    _ev("post_worker_init", worker.ppid, worker.age)
     _pwi(worker)
-def worker_int(worker): _ev("worker_int", worker.age)
-def worker_abort(worker): _ev("worker_abort", worker.age)
-def pre_request(worker, req): _ev("pre_request", worker.age)
-def post_request(worker, req, environ, resp): _ev("post_request", worker.age)
-def child_exit(server, worker): _ev("child_exit", worker.age)
+def worker_int(worker): _ev("worker_int", worker.ppid, worker.age)
+def worker_abort(worker): _ev("worker_abort", worker.ppid, worker.age)
+def pre_request(worker, req): _ev("pre_request", worker.ppid, worker.age)
+def post_request(worker, req, environ, resp): _ev("post_request", worker.ppid, worker.age)
+def child_exit(server, worker): _ev("child_exit", server.pid, worker.age)
 def worker_exit(server, worker):
-    _ev("worker_exit", worker.age)
+    _ev("worker_exit", worker.ppid, worker.age)
     _wex(server, worker)
-def nworkers_changed(server, new, old): _ev("nworkers_changed", new, -1 if old is None else old)
-def on_reload(server): _ev("on_reload")
-def on_exit(server): _ev("on_exit")
-def pre_exec(server): _ev("pre_exec")
+def nworkers_changed(server, new, old): _ev("nworkers_changed", _os.getpid(), new, -1 if old is None else old)
+def on_reload(server): _ev("on_reload", server.pid)
+def on_exit(server): _ev("on_exit", server.pid)
+def pre_exec(server): _ev("pre_exec", server.pid)
 '''
 
 
@@ -51,11 +51,16 @@ def random_script(rng, n=8):
     return tuple(ops)
 
 
+USR2_SCRIPT = (("req", 2), ("usr2",), ("req", 3), ("promote",), ("req", 2), ("kill",), ("ttin",), ("req", 1))
+
+
 def run_lifecycle(wk, script=DEFAULT_SCRIPT):
     """operator actions on a real server whose hooks log themselves: ("req", n) requests, ("ttin",), ("ttou",),
     ("hup", k) reload with k workers configured, ("kill",) SIGKILL to a worker, ("quit",) SIGQUIT to a worker,
-    ("hang",) a request that never returns (the watchdog aborts the worker); TERM at the end"""
-    s = rp.Server(wk, workers=2, threads=2 if wk == "gthread" else None, name="life",
+    ("hang",) a request that never returns (the watchdog aborts the worker), ("usr2",) binary upgrade: a second master
+    (only requests until) ("promote",) the old master is told to leave; TERM to the master in charge at the end.
+    -> list of (trace, meta), one per master"""
+    s = rp.Server(wk, workers=2, threads=2 if wk == "gthread" else None, name="life", pidfile=True,
                   args=["--timeout", "3", "--graceful-timeout", "3", "--keep-alive", "1"])
     i = s.cmd.index("-w")
     del s.cmd[i:i + 2]
@@ -63,27 +68,35 @@ def run_lifecycle(wk, script=DEFAULT_SCRIPT):
     hooks = HOOKTEXT % {"path": logp}
     s.rewrite_config(hooks + "workers = 2\n")
     killed_pids = []
+    cur = {"pid": None, "new": None}
+    halts = {}                 # master pid -> number of its log lines when it was told to stop
 
-    def nlines():
+    def readlog():
         try:
             with open(logp) as f:
-                return len(f.read().splitlines())
+                return [ln.split() for ln in f.read().splitlines()]
         except OSError:
-            return 0
+            return []
+
+    def nlines(master):
+        return len([ln for ln in readlog() if len(ln) > 2 and ln[2] == str(master)])
+
+    def workers():
+        return [p for p in rp.children_of(cur["pid"]) if p != cur["new"]]
 
     def settle(n, timeout=10):
         deadline = time.time() + timeout
         while time.time() < deadline:
-            live = [p for p in s.workers() if rp.proc_state(p) not in (None, "Z") and p in s.booted()]
-            if len(live) == n and len(s.workers()) == n:
+            live = [p for p in workers() if rp.proc_state(p) not in (None, "Z") and p in s.booted()]
+            if len(live) == n and len(workers()) == n:
                 return live
             time.sleep(0.1)
-        return [p for p in s.workers() if rp.proc_state(p) not in (None, "Z")]
-    halt_at = None
+        return [p for p in workers() if rp.proc_state(p) not in (None, "Z")]
     lines = []
     try:
         s.start()
         s.wait_booted(2)
+        cur["pid"] = s.pid
         n = 2
         for op in script:
             if op[0] == "req":
@@ -93,17 +106,17 @@ def run_lifecycle(wk, script=DEFAULT_SCRIPT):
                     except OSError:
                         pass
             elif op[0] == "ttin":
-                s.signal(signal.SIGTTIN)
+                os.kill(cur["pid"], signal.SIGTTIN)
                 n += 1
                 settle(n)
             elif op[0] == "ttou":
-                s.signal(signal.SIGTTOU)
+                os.kill(cur["pid"], signal.SIGTTOU)
                 n = max(1, n - 1)
                 time.sleep(0.3)
                 settle(n)
             elif op[0] == "hup":
                 s.rewrite_config(hooks + "workers = %d\n" % op[1])
-                s.signal(signal.SIGHUP)
+                os.kill(cur["pid"], signal.SIGHUP)
                 n = op[1]
                 time.sleep(1.5)
                 settle(n)
@@ -125,29 +138,62 @@ def run_lifecycle(wk, script=DEFAULT_SCRIPT):
                 except OSError:
                     pass
                 settle(n)
+            elif op[0] == "usr2" and cur["new"] is None:
+                os.kill(cur["pid"], signal.SIGUSR2)
+                deadline = time.time() + 10
+                while time.time() < deadline and cur["new"] is None:
+                    for ln in readlog():
+                        if ln[0] == "when_ready" and int(ln[2]) != cur["pid"]:
+                            cur["new"] = int(ln[2])
+                    time.sleep(0.1)
+                time.sleep(1.0)
+            elif op[0] == "promote" and cur["new"] is not None:
+                halts[cur["pid"]] = nlines(cur["pid"])
+                os.kill(cur["pid"], signal.SIGTERM)
+                s.wait_exit(10)
+                cur["pid"], cur["new"] = cur["new"], None
+                n = 2
+                settle(n)
         time.sleep(0.3)
-        halt_at = nlines()
-        s.signal(signal.SIGTERM)
-        s.wait_exit(10)
-        with open(logp) as f:
-            lines = [ln.split() for ln in f.read().splitlines()]
+        halts[cur["pid"]] = nlines(cur["pid"])
+        os.kill(cur["pid"], signal.SIGTERM)
+        deadline = time.time() + 10
+        while time.time() < deadline and rp.proc_state(cur["pid"]) not in (None, "Z"):
+            time.sleep(0.1)
+        lines = readlog()
     finally:
+        for p in (cur["new"], cur["pid"]):
+            if p and p != getattr(s.proc, "pid", None) and rp.proc_state(p) not in (None, "Z"):
+                for c in rp.children_of(p):
+                    try:
+                        os.kill(c, signal.SIGKILL)
+                    except OSError:
+                        pass
+                try:
+                    os.kill(p, signal.SIGKILL)
+                except OSError:
+                    pass
         s.cleanup()
-    pid_age = {}
+    out = []
+    masters = []
     for ln in lines:
-        if ln[0] == "post_fork":
-            pid_age[int(ln[1])] = int(ln[2])
-    ev = []
-    for k, ln in enumerate(lines):
-        if k == halt_at:
+        if len(ln) > 2 and ln[2] not in masters:
+            masters.append(ln[2])
+    for mp in masters:
+        mine = [ln for ln in lines if len(ln) > 2 and ln[2] == mp]
+        pid_age = {int(ln[1]): int(ln[3]) for ln in mine if ln[0] == "post_fork"}
+        halt_at = halts.get(int(mp))
+        ev = []
+        for k, ln in enumerate(mine):
+            if k == halt_at:
+                ev.append({"h": "halt", "a": 0, "b": 0})
+            ev.append({"h": ln[0], "a": int(ln[3]) if len(ln) > 3 else 0, "b": int(ln[4]) if len(ln) > 4 else 0})
+        if halt_at is not None and halt_at >= len(mine):
             ev.append({"h": "halt", "a": 0, "b": 0})
-        a = int(ln[2]) if len(ln) > 2 else 0
-        b = int(ln[3]) if len(ln) > 3 else 0
-        ev.append({"h": ln[0], "a": a, "b": b})
-    if halt_at is not None and halt_at >= len(lines):
-        ev.append({"h": "halt", "a": 0, "b": 0})
-    return {"wk": wk, "killed": [pid_age[p] for p in killed_pids if p in pid_age], "ev": ev}, \
-        {"wk": wk, "script": [list(o) for o in script], "hooks_logged": len(lines), "kinds": sorted({ln[0] for ln in lines})}
+        out.append(({"wk": wk, "killed": [pid_age[p] for p in killed_pids if p in pid_age], "ev": ev},
+                    {"wk": wk, "script": [list(o) for o in script], "master": len(out) + 1, "hooks_logged": len(mine),
+                     "kinds": sorted({ln[0] for ln in mine})}))
+    return out
 
 
 def design(ctx):
@@ -204,11 +250,11 @@ def inductive(ctx):
 
 def follow(ctx):
     from props.reload_real import _parallel
-    plan = [("sync", DEFAULT_SCRIPT), ("gthread", DEFAULT_SCRIPT), ("sync", random_script(ctx.rng, 6))] if ctx.quick else \
-        [(wk, DEFAULT_SCRIPT) for wk in ("sync", "gthread", "gevent", "eventlet")] + \
+    plan = [("sync", DEFAULT_SCRIPT), ("gthread", DEFAULT_SCRIPT), ("sync", random_script(ctx.rng, 6)), ("gthread", USR2_SCRIPT)] if ctx.quick else \
+        [(wk, sc) for wk in ("sync", "gthread", "gevent", "eventlet") for sc in (DEFAULT_SCRIPT, USR2_SCRIPT)] + \
         [(wk, random_script(ctx.rng)) for wk in ("sync", "gthread", "gevent", "eventlet") for _ in range(4)]
     try:
-        results = _parallel(plan, lambda a, i: run_lifecycle(a[0], a[1]), par=6)
+        results = [x for r in _parallel(plan, lambda a, i: run_lifecycle(a[0], a[1]), par=6) for x in r]
     except Exception as e:   # noqa  (outside the property: a failure of this follower is recorded, it does not fail the check)
         ctx.coverage["hook_log_runs"] = "not run: %r" % (e,)
         return
@@ -224,7 +270,8 @@ def follow(ctx):
         n += m["hooks_logged"]
         v, stepn = verdicts[0]
         if v != "ok":
-            ctx.note_drift("server hooks (%s, %s): %s at event %d: ...%s" % (t["wk"], m["script"], v, stepn, t["ev"][max(0, stepn - 4):stepn]))
+            ctx.note_drift("server hooks (%s, %s, master %d): %s at event %d: ...%s" % (t["wk"], m["script"], m["master"], v, stepn,
+                                                                                     t["ev"][max(0, stepn - 4):stepn]))
     ctx.coverage["hook_kinds_followed"] = sorted({k for _, m in results for k in m["kinds"]})
     ctx.coverage["hook_kinds_never_logged"] = sorted({"pre_exec"} - {k for _, m in results for k in m["kinds"]})
     ctx.coverage["hook_log_runs"] = len(results)
